@@ -90,6 +90,7 @@ package main
 
 //@ func NewDialogBasedBackend
 //@   props C15
+//@   requires timeoutSeconds >= 0
 //@   ensures result != nil && result.timeout == timeoutSeconds * 1000000000
 //@   ensures result.nextCleanTime >= old(now) + result.timeout && result.nextCleanTime <= now + result.timeout
 //@   ensures forall k string :: !has(result.backends, k)
@@ -300,7 +301,6 @@ package main
 // (the three message handlers are summarised by their static mod sets here; their own contracts follow below)
 //@ func (*Proxy).handleRawMessage
 //@   props C07
-//@   requires rawMessage != nil && rawMessage.Message != nil && p.selfLearnRoute != nil && p.clientTransMgr != nil && p.resolver != nil && rawMessage.From != nil
 //@   ensures returns-message: result == rawMessage.Message && err == nil
 //@   ensures stamp-when-enabled: rawMessage.Message.request != nil && rawMessage.ReceivedSupport ==>
 //@        stamps == old(stamps) ++ seq1(rawMessage.Message) && stampAddr == old(stampAddr) ++ seq1(rawMessage.PeerAddr) && stampPort == old(stampPort) ++ seq1(rawMessage.PeerPort)
@@ -309,7 +309,6 @@ package main
 //@   noinline
 //@ func (*Proxy).HandleMessage
 //@   props C02
-//@   requires msg != nil && p.dialogBasedBackends != nil
 //@   ensures r-pop: msg.request == nil ==> popvias == old(popvias) ++ seq1(msg)
 //@   ensures r-at-most-one: msg.request == nil ==> len(smMsg) <= len(old(smMsg)) + 1 && len(smMsg) >= len(old(smMsg)) && stb == old(stb)
 //@   ensures r-dest: msg.request == nil && len(smMsg) == len(old(smMsg)) + 1 ==> smMsg[len(old(smMsg))] == msg
@@ -739,7 +738,6 @@ package main
 //@   props C06
 //@   event addvias: msg
 //@   event addviaT: transport
-//@   requires msg != nil && transport != nil
 //@   modifies msg.headers, uuidDraws
 //@   ensures failed: err != nil ==> msg.headers == old(msg.headers) && result == nil
 //@   ensures pushed: err == nil ==> result != nil && fresh(result) && len(msg.headers) == len(old(msg.headers)) + 1
@@ -772,7 +770,6 @@ package main
 //@   props C06
 //@   event addrrs: msg
 //@   event addrrT: transport
-//@   requires msg != nil && transport != nil
 //@   modifies msg.headers
 //@   ensures policy-none: old(firstIdx(msg.headers, "Record-Route")) < 0 && !p.mustRecordRoute ==> msg.headers == old(msg.headers)
 //@   ensures policy-add: old(firstIdx(msg.headers, "Record-Route")) >= 0 || p.mustRecordRoute ==>
@@ -823,7 +820,6 @@ package main
 
 //@ func (*Proxy).isSameAddress
 //@   props C13
-//@   requires p.resolver != nil
 //@   modifies nothing
 //@   ensures same-text: addr1 == addr2 ==> result
 //@   ensures known: addr1 != addr2 && knownHost(p.resolver.hostIPs, addr1) && knownHost(p.resolver.hostIPs, addr2) ==> result == (knownIp(p.resolver.hostIPs, addr1) == knownIp(p.resolver.hostIPs, addr2))
@@ -849,7 +845,6 @@ package main
 // first decoded in place (GetRoute) and then follows the same code path, on which the same obligations are proved.
 //@ func (*Proxy).tryRemoveTopRoute
 //@   props C13
-//@   requires rawMessage != nil && rawMessage.Message != nil && rawMessage.From != nil && p.resolver != nil
 //@   ensures at-most-one: len(poproutes) <= len(old(poproutes)) + 1 && len(poproutes) >= len(old(poproutes))
 //@   ensures no-route: old(firstIdx(rawMessage.Message.headers, "Route")) < 0 ==> poproutes == old(poproutes)
 //@   ensures popped-is-message: len(poproutes) == len(old(poproutes)) + 1 ==> poproutes[len(old(poproutes))] == rawMessage.Message
@@ -875,7 +870,6 @@ package main
 
 //@ func (*Proxy).getNextRequestHopByRoute
 //@   props C13 C03
-//@   requires msg != nil
 //@   ensures no-route: old(firstIdx(msg.headers, "Route")) < 0 ==> err != nil && poproutes == old(poproutes)
 //@   ensures keep: P.keepNextHopRoute ==> poproutes == old(poproutes)
 //@   ensures strip: !P.keepNextHopRoute && old(firstIdx(msg.headers, "Route")) >= 0 && isType(old(msg.headers[firstIdx(msg.headers, "Route")].value), "*Route")
